@@ -187,6 +187,37 @@ def valid_history(rng, kind, ncalls=30, small=False, allow=("ratio", "ramp", "ch
     return ops
 
 
+def superseded_history(rng, kind):
+    """Requests that supersede a pending request: two or three setter calls in a row (ramped and immediate,
+    ratio and chunk size) with no processing call in between, at many phases of the stream and at strongly
+    down- and up-sampling ratios (state derived from a request that never ran - seeded changes C06i, C03h)."""
+    over = {"maxrel": rj(rng.choice([Fraction(4), Fraction(8), Fraction(2)])),
+            "r": rj(rng.choice([Fraction(1, 4), Fraction(1, 2), Fraction(1), Fraction(2), Fraction(1, 3), Fraction(3, 4)])),
+            "ch": 1}
+    if kind.startswith("Sinc"):
+        over.update({"L": rng.choice([8, 16, 64]), "F": rng.choice([2, 16, 128, 100])})
+    n = new_op(rng, kind, **over)
+    if kind.endswith("In"):
+        n["chunk"] = rng.choice([7, 33, 64, 100, 257, 777])
+    ops = [n]
+    orig, maxrel = frac_of(n["r"]), frac_of(n["maxrel"])
+    rels = [x for x in in_range_rels(maxrel)]
+    for _ in range(rng.randrange(3, 8)):
+        for _p in range(rng.randrange(0, 4)):
+            ops.append({"op": "process", "id": 0})
+        for _s in range(rng.randrange(2, 4)):
+            if kind.startswith("Sinc") and rng.random() < 0.2:
+                ops.append({"op": "set_chunk", "id": 0, "n": rng.randrange(1, n["chunk"] + 1)})
+            else:
+                x = orig * rng.choice(rels)
+                if rng.random() < 0.3:
+                    x = orig * maxrel if rng.random() < 0.5 else orig / maxrel
+                ops.append({"op": "set_ratio", "id": 0, "x": rj(x), "ramp": rng.random() < 0.7, "rel": False})
+        for _p in range(rng.randrange(1, 3)):
+            ops.append({"op": "process", "id": 0})
+    return ops
+
+
 def huge_history(rng, kind):
     """chunk sizes beyond 2^16 (size computations that truncate, wrap or lose precision only there);
     few calls, so that the stream stays below 2^20 frames"""
